@@ -187,7 +187,8 @@ def main():
             feats = ["alloc"]
         elif "+nofeatures" in b:
             feats = []
-        okb, exe = vlib.harness_build(profile=prof, hooks=not b.startswith("plain"), features=feats)
+        xflags = "-Ctarget-feature=+avx2" if "+avx2" in b else ""
+        okb, exe = vlib.harness_build(profile=prof, hooks=not b.startswith("plain"), features=feats, extra_rustflags=xflags)
         if not okb:
             # the repository no longer builds: nothing can be said; report as broken correspondence
             broken.append(("correspondence", f"harness build ({b})", exe[-800:]))
